@@ -135,9 +135,8 @@ namespace chaiscript {
 
           for (size_t i = 0; i < num_children; ++i) {
             const auto &child = *node->children[i];
-            if ((child.identifier != AST_Node_Type::Id && child.identifier != AST_Node_Type::Constant
-                 && child.identifier != AST_Node_Type::Noop)
-                || i == num_children - 1) {
+            // an Id statement is not dead code: evaluating it is what reports a name that cannot be resolved
+            if ((child.identifier != AST_Node_Type::Constant && child.identifier != AST_Node_Type::Noop) || i == num_children - 1) {
               keepers.push_back(i);
             }
           }
